@@ -107,7 +107,7 @@ HEADER = """#include <Arduino.h>
 
 """
 
-LEN_HELPER_SNIPPET = """#include <cstring>
+LEN_HELPER_SNIPPET = """#include <string.h>
 
 template <typename T, size_t N>
 constexpr size_t __redu_len(const T (&value)[N]) {
